@@ -219,12 +219,11 @@ func checkC20(p *Prog, r *Report) {
 				continue
 			}
 			pos := p.InstrPos(x.acc.In)
-			// !Debug dominates
-			dbg := Guarded(x.acc.In, func(c ssa.Value, pol bool) bool {
-				return !pol && loadsField(c, "TemplateSet", ca.debugField)
-			})
+			// !Debug dominates: in the function itself, or — the locked part being an unexported helper — at every
+			// call of that helper
+			dbg, via := u7DebugBypassed(p, x.acc.In, ca.debugField)
 			if dbg {
-				r.OK(p.FuncName(f)+":"+x.acc.Kind+":nodebug", pos, "reached only on the !%s edge", ca.debugField)
+				r.OK(p.FuncName(f)+":"+x.acc.Kind+":nodebug", pos, "reached only on the !%s edge%s", ca.debugField, via)
 			} else {
 				r.Bad(p.FuncName(f)+":"+x.acc.Kind+":nodebug", pos, "cache %s is reachable with %s set: debug mode must bypass the cache", x.acc.Kind, ca.debugField)
 			}
@@ -283,8 +282,9 @@ func checkC20(p *Prog, r *Report) {
 			continue
 		}
 		key := p.FuncName(x.f) + ":" + x.acc.Kind + ":key"
-		if isNormKey(x.acc.Key) {
-			r.OK(key, p.InstrPos(x.acc.In), "key is %s", p.VN(x.acc.Key))
+		// … the key may be a parameter of an unexported helper: then it is judged at every call of the helper
+		if nk, via := u7NormKey(p, x.acc.Key, isNormKey, 0); nk {
+			r.OK(key, p.InstrPos(x.acc.In), "key is %s%s", p.VN(x.acc.Key), via)
 		} else {
 			r.Bad(key, p.InstrPos(x.acc.In), "cache %s uses key %s which is not resolveFilename(nil, name): lookup/fill/delete disagree on the key", x.acc.Kind, p.VN(x.acc.Key))
 		}
@@ -763,60 +763,64 @@ func ruleC20Clean(p *Prog, a *Anchors, ca *cacheAnchors, r *Report) {
 // cache key, which is the name as resolved by the first loader only.
 func ruleC20SameLoad(p *Prog, a *Anchors, ca *cacheAnchors, r *Report) {
 	r.Begin("R-C20-SAMELOAD", "the caching entry point loads by the name it was given on every path (debug and cache miss alike); the normalised cache key is never what is handed to the loaders", 2)
-	var entry *ssa.Function
-	for _, f := range p.Methods(a.TemplateSet) {
-		if f.Object() == nil || !f.Object().Exported() {
-			continue
-		}
-		hasLookup, hasUpdate := false, false
-		for _, acc := range cacheAccesses(p, f, ca.cacheField) {
-			if acc.Kind == "lookup" {
-				hasLookup = true
-			}
-			if acc.Kind == "update" {
-				hasUpdate = true
-			}
-		}
-		if hasLookup && hasUpdate {
-			entry = f
-		}
-	}
-	if entry == nil {
+	// the entry point: the exported method that looks up and fills the cache — itself, or through one unexported
+	// helper method it calls (the locked lookup-or-load extracted)
+	entries := u7CacheEntries(p, a, ca)
+	if len(entries) == 0 {
 		r.Unk("entry", "-", "no exported method of TemplateSet both looks up and fills the cache")
 		return
 	}
-	var nameParam *ssa.Parameter
-	for _, pa := range entry.Params {
-		if b, ok := pa.Type().Underlying().(*types.Basic); ok && b.Kind() == types.String {
-			nameParam = pa
-		}
-	}
-	cnt := 0
-	for _, fn := range withClosures(entry) {
-		for _, c := range callsTo(fn, ca.fromFile) {
-			cnt++
-			arg := c.Common().Args[1]
-			key := p.FuncName(entry) + ":load"
-			if cnt > 1 {
-				key += "#" + strconv.Itoa(cnt)
-			}
-			v := arg
-			if u, ok := v.(*ssa.UnOp); ok {
-				if sv := localLoadValue(u); sv != nil {
-					v = sv
-				}
-				if fv, isFV := u.X.(*ssa.FreeVar); isFV {
-					_ = fv
-				}
-			}
-			if nameParam != nil && (v == ssa.Value(nameParam) || p.VN(v) == p.VN(nameParam)) {
-				r.OK(key, p.InstrPos(c.(ssa.Instruction)), "loads the name the caller gave")
-			} else {
-				r.Bad(key, p.InstrPos(c.(ssa.Instruction)), "FromFile is handed %s, not the name the caller gave: the loaders are asked for a name that went through the first loader's resolution already (a template that only a later loader has is never found unless Debug is on)", p.VN(arg))
+	for _, e := range entries {
+		entry := e.entry
+		var nameParam *ssa.Parameter
+		for _, pa := range entry.Params {
+			if b, ok := pa.Type().Underlying().(*types.Basic); ok && b.Kind() == types.String {
+				nameParam = pa
 			}
 		}
-	}
-	if cnt == 0 {
-		r.Unk(p.FuncName(entry)+":load", p.Pos(entry.Pos()), "the cache entry point does not call FromFile")
+		fns := withClosures(entry)
+		if e.helper != nil {
+			fns = append(fns, withClosures(e.helper)...)
+		}
+		cnt := 0
+		for _, fn := range fns {
+			for _, c := range callsTo(fn, ca.fromFile) {
+				cnt++
+				arg := c.Common().Args[1]
+				key := p.FuncName(entry) + ":load"
+				if cnt > 1 {
+					key += "#" + strconv.Itoa(cnt)
+				}
+				v := arg
+				if u, ok := v.(*ssa.UnOp); ok {
+					if sv := localLoadValue(u); sv != nil {
+						v = sv
+					}
+				}
+				// a name that is a parameter of the helper is what the entry point passes for it
+				vals, related, why := u7LoadedName(p, e, entries, v)
+				if !related {
+					r.Bad(key, p.InstrPos(c.(ssa.Instruction)), "FromFile is handed %s, which cannot be related to the name the caller gave: %s", p.VN(arg), why)
+					continue
+				}
+				good := nameParam != nil
+				for _, w := range vals {
+					if nameParam == nil || !(w == ssa.Value(nameParam) || p.VN(w) == p.VN(nameParam)) {
+						good = false
+						if w != v {
+							arg = w // what the entry point passes for the helper's parameter
+						}
+					}
+				}
+				if good {
+					r.OK(key, p.InstrPos(c.(ssa.Instruction)), "loads the name the caller gave")
+				} else {
+					r.Bad(key, p.InstrPos(c.(ssa.Instruction)), "FromFile is handed %s, not the name the caller gave: the loaders are asked for a name that went through the first loader's resolution already (a template that only a later loader has is never found unless Debug is on)", p.VN(arg))
+				}
+			}
+		}
+		if cnt == 0 {
+			r.Unk(p.FuncName(entry)+":load", p.Pos(entry.Pos()), "the cache entry point does not call FromFile")
+		}
 	}
 }
